@@ -193,6 +193,38 @@ func sigVariants(txBz []byte, keyType string) map[string][]byte {
 	return out
 }
 
+// an Ethereum wallet of the harness and a transfer signed with it, wrapped the way the RPC layer wraps raw transactions
+var ethPriv, _ = ethCrypto.ToECDSA(append(make([]byte, 31), 0x77))
+
+func ethAccount() crypto.AddressI {
+	return crypto.NewAddressFromBytes(ethCrypto.PubkeyToAddress(ethPriv.PublicKey).Bytes())
+}
+
+func ethWrapped(recipient crypto.AddressI, amt, nonce uint64, v2 bool) []byte {
+	to := common.BytesToAddress(recipient.Bytes())
+	var wrapped *lib.Transaction
+	if !v2 {
+		chainID := new(big.Int).SetUint64(fsm.CanopyIdsToEVMChainId(1, 1))
+		etx := ethTypes.NewTransaction(nonce, to, fsm.UpscaleTo18Decimals(amt), 21000, big.NewInt(100_000_000_000), nil)
+		if signed, e := ethTypes.SignTx(etx, ethTypes.NewEIP155Signer(chainID), ethPriv); e == nil {
+			raw, _ := signed.MarshalBinary()
+			wrapped, _ = fsm.RLPToCanopyTransaction(raw)
+		}
+	} else if id, ok := fsm.CanopyIdsToEVMChainIdV2(1, 1); ok {
+		chainID := new(big.Int).SetUint64(id)
+		if signed, e := ethTypes.SignNewTx(ethPriv, ethTypes.LatestSignerForChainID(chainID), &ethTypes.DynamicFeeTx{ChainID: chainID, Nonce: nonce,
+			GasTipCap: big.NewInt(1e9), GasFeeCap: big.NewInt(100_000_000_000), Gas: 21000, To: &to, Value: fsm.UpscaleTo18Decimals(amt)}); e == nil {
+			raw, _ := signed.MarshalBinary()
+			wrapped, _ = fsm.RLPToCanopyTransactionV2(raw)
+		}
+	}
+	if wrapped == nil {
+		return nil
+	}
+	bz, _ := lib.Marshal(wrapped)
+	return bz
+}
+
 func replayMode(seed int64, runs int, out *json.Encoder) error {
 	rng := rand.New(rand.NewSource(seed))
 	for r := 0; r < runs; r++ {
